@@ -25,6 +25,7 @@ var registry = map[string]checkFn{
 	"C08": runC08,
 	"C09": runC09,
 	"C11": runC11,
+	"C12": runC12,
 	"C16": runC16,
 	"C19": runC19,
 }
